@@ -359,3 +359,47 @@ def decimal_string_roundtrip(k: int, p: int) -> bool:
     d = _D(k) * SCALES[p]
     s = ev(T2['dec_str'], d=d)[0]
     return 'E' not in s and 'e' not in s and ev(T2['dec_castable'], d=d) == [True] and ev(T2['dec_rt'], d=d) == [True]
+
+
+# --- added after round-3 seeded changes: whitespace-collapsed xs:boolean VALUE; negative zero of xs:float / xs:double -------------------
+
+T2.update(parse_all({'bool_ctor': 'xs:boolean($s)', 'bool_cast': '$s cast as xs:boolean', 'bool_untyped': 'xs:untypedAtomic($s) = true()',
+                     'bool_castable': '$s castable as xs:boolean',
+                     'flt_str': 'string(xs:float($s))', 'flt_div': '1 div xs:float($s)', 'dbl_str': 'string(xs:double($s))', 'dbl_div': '1 div xs:double($s)',
+                     'dbl_flt': 'string(xs:double($s) cast as xs:float)', 'flt_dbl': '1 div (xs:float($s) cast as xs:double)'}))
+BWORDS = ('true', 'false', '1', '0')
+ZEROS = ('-0', '-0.0', '-0e0', '-.0E5', '-0.000E-3', '0', '+0', '0.0', '-1e-50', '1e-50')
+
+
+@ob(budget=200, bound='lexical form = pad + {true,false,1,0} + pad with pads from 6 XML-whitespace strings (all chosen by the solver): constructor, '
+                      'cast, castable and untypedAtomic comparison give the value of the collapsed word',
+    funcs=['elementpath/datatypes/proxies.py:BooleanProxy.__new__', 'elementpath/xpath2/_xpath2_constructors.py:xs:boolean'])
+def boolean_whitespace_value(w0: int, w2: int, wi: int) -> bool:
+    """
+    pre: 0 <= w0 <= 5 and 0 <= w2 <= 5 and 0 <= wi <= 3
+    post: _
+    """
+    word = BWORDS[[k for k in range(4) if k == wi][0]]
+    s = WS[w0] + word + WS[w2]
+    want = word in ('true', '1')
+    return _try(T2['bool_ctor'], s=s) == [want] and _try(T2['bool_cast'], s=s) == [want] and _try(T2['bool_untyped'], s=s) == [want] \
+        and _try(T2['bool_castable'], s=s) == [True]
+
+
+@ob(budget=120, bound='10 lexical forms of positive / negative zero and of values that underflow xs:float (index chosen by the solver): the sign of '
+                      'zero is kept by xs:float and xs:double (canonical string, 1 div x) and by casts between them',
+    funcs=['elementpath/datatypes/numeric.py:Float.__new__', 'elementpath/xpath2/_xpath2_constructors.py:xs:float/xs:double'])
+def float_zero_sign(zi: int) -> bool:
+    """
+    pre: 0 <= zi <= 9
+    post: _
+    """
+    s = ZEROS[[k for k in range(10) if k == zi][0]]
+    neg = s.startswith('-')
+    underflow = 'e-50' in s
+    zs, inf = ('-0' if neg else '0'), [float('-inf') if neg else float('inf')]
+    if _try(T2['flt_str'], s=s) != [zs] or _try(T2['flt_div'], s=s) != inf or _try(T2['flt_dbl'], s=s) != inf or _try(T2['dbl_flt'], s=s) != [zs]:
+        return False
+    if underflow:
+        return True
+    return _try(T2['dbl_str'], s=s) == [zs] and _try(T2['dbl_div'], s=s) == inf
